@@ -74,6 +74,23 @@ def downtime_family():
                         yield {'names': names, 'phens': phens, 'cache': cache, 'ops': ops}
 
 
+def conflict_then_restart_family():
+    """the survivor's copy of a run was OVERTAKEN by a peer's state before the restart (both instances advanced the run with
+    different data while their messages crossed: C04's conflict and loop-race families, every third scenario): what the
+    survivor hands the restarted instance is the state it holds NOW, not one it serialised earlier."""
+    for fam in (gc.conflict_family(), gc.loop_race_family()):
+        for k, sc in enumerate(fam):
+            if k % 3:
+                continue
+            ops = [o for o in sc['ops'] if o != 'heal'] + ['sync']
+            for victim in sc['names'][:2]:
+                other = [n for n in sc['names'] if n != victim]
+                tail = [f'restart {victim}', f'pass {victim}'] + [f'del {victim} {o}' for o in other]
+                for o in other:
+                    tail += [f'pass {o}', f'del {o} {victim}', f'del {o} {victim}']
+                yield dict(sc, ops=ops + tail + ['heal'])
+
+
 def crash_schedule(rng):
     sc = gc.scenario(rng, n_ops=rng.randint(10, 36))
     ops = sc['ops'][:-1]
@@ -121,6 +138,9 @@ def scenarios(ctx: Ctx, res: Result):
         yield sc
     for sc in downtime_family():
         res.count('downtime_family')
+        yield sc
+    for sc in conflict_then_restart_family():
+        res.count('conflict_then_restart_family')
         yield sc
     for _ in range(2500 if ctx.thorough else 280):
         res.count('random_crash_point')
